@@ -77,21 +77,26 @@ func ShareWithConfig[T any](config ShareConfig[T]) func(Observable[T]) Observabl
 		var subject Subject[T]
 		var sourceSubscription Subscription // subscription between the source and the subject
 
-		refCount := 0 // not an atomic counter, because it is protected by mutex
+		// Reference counter of the current execution (subject + source subscription). Each
+		// execution has its own counter: a subscriber of an execution that has been reset
+		// gives its reference back to that execution, not to the next one.
+		// Not an atomic counter, because it is protected by mutex.
+		var refCount *int
 
 		var hasBeenResetOnError int32      // atomic.Bool is not available in Go 1.18
 		var hasBeenResetOnCompletion int32 // atomic.Bool is not available in Go 1.18
 
 		// Unsafe: must be called in a mutex lock.
-		getOrCreateSubject := func() (Subject[T], Subscription, bool) {
+		getOrCreateSubject := func() (Subject[T], Subscription, *int, bool) {
 			if subject == nil || sourceSubscription == nil {
 				subject = config.Connector()
 				sourceSubscription = NewSubscription(nil)
+				refCount = new(int)
 
-				return subject, sourceSubscription, true
+				return subject, sourceSubscription, refCount, true
 			}
 
-			return subject, sourceSubscription, false
+			return subject, sourceSubscription, refCount, false
 		}
 
 		// Unsafe: must be called in a mutex lock.
@@ -112,10 +117,10 @@ func ShareWithConfig[T any](config ShareConfig[T]) func(Observable[T]) Observabl
 			verifPoint("operator_connectable:ShareWithConfig:lock#0", nil)
 			mu.Lock()
 
-			refCount++
 			// `currentSubject` is a backup (local reference) of `subject`
 			// to manipulate it even after reset.
-			currentSubject, currentSourceSubscription, createdSubject := getOrCreateSubject()
+			currentSubject, currentSourceSubscription, currentRefCount, createdSubject := getOrCreateSubject()
+			*currentRefCount++
 
 			mu.Unlock()
 			verifPoint("operator_connectable:ShareWithConfig:unlocked#0", nil)
@@ -176,9 +181,9 @@ func ShareWithConfig[T any](config ShareConfig[T]) func(Observable[T]) Observabl
 				verifPoint("operator_connectable:ShareWithConfig:lock#3", nil)
 				mu.Lock()
 
-				refCount--
+				*currentRefCount--
 				if config.ResetOnRefCountZero {
-					if refCount == 0 && atomic.LoadInt32(&hasBeenResetOnError) == 0 && atomic.LoadInt32(&hasBeenResetOnCompletion) == 0 {
+					if *currentRefCount == 0 && atomic.LoadInt32(&hasBeenResetOnError) == 0 && atomic.LoadInt32(&hasBeenResetOnCompletion) == 0 {
 						reset(currentSubject, currentSourceSubscription)
 					}
 				}
